@@ -45,6 +45,39 @@ def records_check(run, binary, driver, module, env=None, tier=None, sub=None, ar
     return meta
 
 
+def traces_check(run, binary, driver, module, env=None, tier=None, sub=None, args=(), cfg=None, fileskey="traces"):
+    """Drive, validate traces with TLC against a trace spec, confirm each rejected trace alone."""
+    e = dict(env or {})
+    if getattr(run, "only", None):
+        e["VERIF_ONLY"] = run.only
+    d, meta = run.drive(binary, driver, env=e, tier=tier, sub=sub, args=args)
+    run.absorb(meta)
+    files = meta["files"][fileskey]
+    nt, ne, rej = vlib.tlc_traces(run, module, files, cfg=cfg)
+    run.cov["traces_validated_against_impl"] += nt
+    run.extra["trace_events_validated"] = run.extra.get("trace_events_validated", 0) + ne
+    seen = set()
+    for key, line, lines, why in rej:
+        if key in seen:
+            continue
+        seen.add(key)
+
+        def recheck(key=key):
+            e2 = dict(e, VERIF_ONLY=key)
+            d2, m2 = run.drive(binary, driver, sub="recheck-%s-%d" % (driver, len(seen)), env=e2, tier=tier, args=args)
+            n2, ne2, rej2 = vlib.tlc_traces(run, module, m2["files"][fileskey], cfg=cfg)
+            tr = []
+            for p in m2["files"][fileskey]:
+                tr += [json.loads(l) for l in open(p)][:80]
+            why2 = rej2[0][3] if rej2 else ""
+            at = rej2[0][1] if rej2 else 0
+            return bool(rej2), dict(driver=driver, module=module, rejected_at_event=at, why=why2, trace=tr)
+        run.candidate(key, "trace rejected by %s at event %d: %s" % (module, line, why), recheck)
+    for dv in meta.get("direct") or []:
+        run.candidate(dv["key"], dv["what"], lambda dv=dv: (True, dv))
+    return meta
+
+
 @prop("C01")
 def c01(run):
     b = run.build()
@@ -72,3 +105,46 @@ def c03(run):
     vlib.tlc_model(run, "MCUtf8", workers=8)
     records_check(run, b, "c03", "C03Records")
     return run.finish("exploration")
+
+
+WRITER_MODEL_NOTE = "WsWriterImpl (the real algorithm with scaled header thresholds) is explored exhaustively by TLC against the same monitor that judges the real traces"
+
+
+@prop("C06")
+def c06(run):
+    b = run.build()
+    vlib.tlc_model(run, "WsWriterImpl", workers=12, xmx="12g")
+    run.assumptions += [WRITER_MODEL_NOTE,
+                        "fragment boundaries, an empty final frame after only empty writes, and ReadFrom on an exactly full buffer are left open (DESIGN 6.2)",
+                        "payloads are position-coded; a frame's payload is matched against the interval of caller bytes by the harness' own codec"]
+    traces_check(run, b, "c06", "TraceWsWriter")
+    return run.finish("model_checking")
+
+
+@prop("C16")
+def c16(run):
+    b = run.build()
+    vlib.tlc_model(run, "WsWriterImpl", workers=12, xmx="12g")
+    run.assumptions += [WRITER_MODEL_NOTE + " (destination failing at write 1..2; invariant AfterFailNoWrites)",
+                        "ReadFrom's return value after a destination failure is open; it must send nothing"]
+    traces_check(run, b, "c16w", "TraceWsWriter")
+    return run.finish("fault_enumeration")
+
+
+@prop("C18")
+def c18(run):
+    b = run.build()
+    vlib.tlc_model(run, "WsWriterImpl", workers=12, xmx="12g")
+    run.assumptions += [WRITER_MODEL_NOTE + " (invariant ResetIsFresh: after Reset the struct equals a new one)",
+                        "the fresh twin is built with NewWriterSize(Size()); when that constructor cannot give the same Size() the lock-step comparison is skipped and only the monitor judges the suffix"]
+    traces_check(run, b, "c18w", "TraceWsWriter")
+    return run.finish("model_checking")
+
+
+@prop("C08")
+def c08(run):
+    b = run.build()
+    vlib.tlc_model(run, "CtlWriterImpl", workers=4)
+    run.assumptions += ["control writer: limit 125 for must-fail; must-succeed only while the cumulative total stays within the documented capacity"]
+    traces_check(run, b, "c08w", "TraceWsWriter")
+    return run.finish("model_checking")
